@@ -644,6 +644,12 @@ pub fn c16(tier: &str) -> i32 {
                         cfgs.push(AgentCfg::Noise { start: 10, n: n as u16, tick, p_limit: 0.3, p_market: 0.0, p_cancel: 1.0, vol: 7, mu: 0.0, sigma });
                     }
                     cfgs.push(AgentCfg::Momentum { start: 20, n: n as u16, tick, p_cancel: p, vol: 5, decay: 1.0, demand: 100.0, scale: 0.5, ratio: 1.0, mu: 0.0, sigma });
+                    if p == 0.3 && sigma == 1.0 && (t || tick <= 3) {
+                        // location parameters other than zero (quotes several ticks away / very close)
+                        cfgs.push(AgentCfg::Noise { start: 10, n: n as u16, tick, p_limit: 1.0, p_market: p, p_cancel: p, vol: 7, mu: 2.0, sigma: 0.5 });
+                        cfgs.push(AgentCfg::Noise { start: 10, n: n as u16, tick, p_limit: 1.0, p_market: p, p_cancel: p, vol: 7, mu: -3.0, sigma: 0.25 });
+                        cfgs.push(AgentCfg::Momentum { start: 20, n: n as u16, tick, p_cancel: p, vol: 5, decay: 1.0, demand: 100.0, scale: 0.5, ratio: 1.0, mu: 1.5, sigma: 0.5 });
+                    }
                     if p == 0.3 && (t || tick <= 3) {
                         cfgs.push(AgentCfg::Momentum { start: 20, n: n as u16, tick, p_cancel: p, vol: 5, decay: 0.5, demand: 100.0, scale: 0.5, ratio: 0.5, mu: 0.0, sigma });
                     }
